@@ -3,6 +3,8 @@
   Statements only; helper lemmas live in `Pyab/Proofs/`.
 -/
 import Pyab.Model.Choice
+import Pyab.Properties.ChoicePure
+import Pyab.Properties.EvaluatorPremise
 import Pyab.Spec.Interval
 import Pyab.Proofs.Choice
 import Pyab.Properties.C03_float
